@@ -21,7 +21,7 @@ for d in sorted((V / "seeded").glob("*/meta.json")):
 stab = "\n".join(seeds)
 p = V / "DESIGN.md"
 s = p.read_text()
-s = re.sub(r"(<!-- OBLIGATIONS:BEGIN -->\n).*?(\n<!-- OBLIGATIONS:END -->)", lambda m: m.group(1) + tab + m.group(2), s, flags=re.S)
-s = re.sub(r"(<!-- SEEDS:BEGIN -->\n).*?(\n<!-- SEEDS:END -->)", lambda m: m.group(1) + stab + m.group(2), s, flags=re.S)
+s = re.sub(r"(<!-- OBLIGATIONS:BEGIN -->\n).*?(<!-- OBLIGATIONS:END -->)", lambda m: m.group(1) + tab + "\n" + m.group(2), s, flags=re.S)
+s = re.sub(r"(<!-- SEEDS:BEGIN -->\n).*?(<!-- SEEDS:END -->)", lambda m: m.group(1) + stab + "\n" + m.group(2), s, flags=re.S)
 p.write_text(s)
 print(len(cfg["obligations"]), "obligations,", len(seeds) - 2, "seeds")
